@@ -113,6 +113,11 @@ CHECKS['C19'] = ('model_checking', 'explicit-state BFS over operation histories 
     'each transition is replayed on the real resource with every operation issued by its own SimPy process, and level/items/users/queues/grants/preemption details must equal the reference model; from every reachable state every ordered pair of operations is also issued within one time step and capacity, conservation, exactly-once hand-out and no-grantable-head-left-waiting are checked.',
     'The reference models are the specification (request-triggered service, strict FIFO heads, filter scan, (priority,time,not preempt) order, head-of-queue preemption). A cancel only removes a request.',
     'DESIGN.md section 3 C19')
+CHECKS['C18'] = ('model_checking', 'explicit-state exploration of a nondeterministic reference interpreter of the SimPy semantics (all orders of enabled steps inside a time step, state deduplication); every enumerated program is executed on the real usim.py layer and its outcome must be a member of the model\'s outcome set',
+    'For every program of the grammar (2-3 processes, 6 families: events incl. double triggers and events fired before they are waited for, interrupts, AllOf/AnyOf, sub-processes incl. generators that never yield, callback-chained events, yielded native delays/flags/coroutines; until in {None, 0, 2, event, process}; standalone and embedded next to native activities) '
+    'the reference interpreter is explored exhaustively over all interleavings of enabled steps within each virtual time (visited-state set), giving the set of admissible outcomes (value/exception and time of every process step, result of run, final clock); the real implementation\'s outcome must be in that set, and every callback must have run exactly once.',
+    'The reference interpreter (vk/checks/c18.py: Interp) is the specification; it leaves open only the order of simultaneously enabled steps. states/transitions are those of the model; every program is one implementation trace validated against it.',
+    'DESIGN.md section 3 C18')
 PENDING = {}
 
 def main():
